@@ -21,6 +21,9 @@ CLAIMED = {
  "C10": ("reference-model monitor: every public method of the real MultivariateNormal vs dense float64 algebra; index expressions enumerated; sample moments statistically",
          "Runtime monitoring at the distribution's public boundary: log_prob on the fast and the Cholesky path over broadcastable (distribution batch, mean batch, value batch) triples and eight covariance representations; closed-form KL incl. identical arguments; rsample(base_samples) as an affine map with L L^T = Sigma recovered from basis vectors; variance/stddev/confidence_region/min-variance floor; +,*,/ scalars, sums, expand, unsqueeze, add_jitter; d[idx] as the marginal for enumerated index expressions over shapes (N),(b,N),(b1,b2,N); thorough tier adds 200k-sample moment checks (6 s.e.). Decides executed cells only.",
          "Trusts torch dense algebra; repeated-entry batch index tensors combined with an int event index are read as independent batch copies (the library's batch semantics).", "DESIGN.md §4 C10"),
+ "C12": ("post-condition monitors on the real marginal/expected_log_prob/log_marginal/forward vs the documented noise operator built from public parameters",
+         "Runtime monitoring: the real _GaussianLikelihoodBase.marginal is wrapped (mean, class and multitask layout preserved on every call, also inside other checks' workloads); workloads drive Gaussian, FixedNoise (with/without learned noise, with/without call-time noise), multitask (rank 0..t, global/task switches, both layouts), LikelihoodList and fantasy-likelihood histories over all broadcastable (likelihood batch, distribution batch) pairs; marginal(d).cov - d.cov, expected_log_prob, log_marginal and forward's scale are compared with closed forms in the documented R. Decides executed cells only.",
+         "R is assembled from the public parameter properties (noise, second_noise, task_noises, task_noise_covar); torch dense algebra trusted.", "DESIGN.md §4 C12"),
 }
 NOT_YET = "check not built yet in this round (see DESIGN.md §9 build order); not claimed until its monitor exists and is silent on the unchanged tree"
 
